@@ -7,6 +7,7 @@ package main
 
 import (
 	"bytes"
+	"context"
 	"fmt"
 	"os"
 	"os/exec"
@@ -15,6 +16,7 @@ import (
 	"strconv"
 	"strings"
 	"sync"
+	"time"
 )
 
 var (
@@ -70,11 +72,16 @@ func raceRun(a []string) (string, []string) {
 		return "bad-op " + berr, nil
 	}
 	// a verdict that depends on the scheduler is re-run before it is reported (flake policy)
-	cmd := exec.Command(bin, "-g", a[0], "-procs", a[1], "-seed", a[2], "-ops", a[3])
+	ctx, cancel := context.WithTimeout(context.Background(), 120*time.Second)
+	defer cancel()
+	cmd := exec.CommandContext(ctx, bin, "-g", a[0], "-procs", a[1], "-seed", a[2], "-ops", a[3])
 	cmd.Env = append(os.Environ(), "GORACE=halt_on_error=0 exitcode=0")
 	var stdout, stderr bytes.Buffer
 	cmd.Stdout, cmd.Stderr = &stdout, &stderr
 	if err := cmd.Run(); err != nil {
+		if ctx.Err() != nil {
+			return "err", []string{"the concurrent run did not finish within 120 s (the same actions finish in seconds when run alone): goroutines blocked for good — " + a[3]}
+		}
 		return "err", []string{"race rig process failed: " + err.Error() + " " + truncate(stderr.String(), 400)}
 	}
 	var direct []string
@@ -123,6 +130,8 @@ func raceRun(a []string) (string, []string) {
 			nrpc += 2
 		case "rpcstorm":
 			nrpc += 40
+		case "rpcbad":
+			nrpc += 1
 		}
 	}
 	if len(ids) != nrpc {
@@ -162,6 +171,7 @@ func runC19(r *Runner) string {
 		{"base58", "wif", "addrmake", "addrdecode", "bech32", "xkey"},
 		{"xkey"},
 		{"rpcstorm"},
+		{"rpcbad", "rpc", "rpcstorm"},
 		{"storm"},
 		{"mnemonic"},
 		{"txparse", "sighash"},
